@@ -114,12 +114,17 @@ def reachable_without(body, removed):
     return seen
 
 
-def r11_1(ctx, run, rule='R11.1'):
+def r11_1(ctx, run, rule='R11.1', only=None):
     f = ctx.facts
     ds = dispatchers(ctx)
-    run.floor(rule, 'public functions with text-or-JSONB document parameters', len(ds), 55)
+    if only is None:
+        run.floor(rule, 'public functions with text-or-JSONB document parameters', len(ds), 55)
+    else:
+        run.floor(rule, 'dispatching entry points of this property', len([p for p in ds if p in only]), len(only))
     nparam = 0
     for p, params in ds.items():
+        if only is not None and p not in only:
+            continue
         b = f.bodies[p]
         ex = Expr(b)
         for k in params:
